@@ -73,8 +73,20 @@ struct Store {
     prefer_last: bool,
     queries: usize,
     restarts: usize,
+    fail: Option<(u8, usize)>, // injected store failure: (0 query / 1 register query / 2 complete / 3 register xorb, at the k-th such call)
+    kind_calls: [usize; 4],
+    fired: bool,
 }
 impl Store {
+    fn inject(&mut self, kind: u8) -> Result<(), String> {
+        let k = self.kind_calls[kind as usize];
+        self.kind_calls[kind as usize] += 1;
+        if self.fail == Some((kind, k)) {
+            self.fired = true;
+            return Err(format!("injected failure of store call kind {kind} #{k}"));
+        }
+        Ok(())
+    }
     fn add(&mut self, x: MerkleHash, chunks: Vec<HL>) {
         for (i, (h, _)) in chunks.iter().enumerate() {
             self.first.entry(*h).or_insert((x, i));
@@ -95,6 +107,7 @@ impl DeduplicationDataInterface for Mock {
     type ErrorType = String;
     async fn chunk_hash_dedup_query(&self, q: &[MerkleHash]) -> Result<Option<(usize, FileDataSequenceEntry)>, String> {
         let mut s = self.store.lock().unwrap();
+        s.inject(0)?;
         if q.is_empty() {
             if s.limit_violation.is_none() {
                 s.limit_violation = Some("the store was queried with an empty hash list".into());
@@ -118,10 +131,12 @@ impl DeduplicationDataInterface for Mock {
     }
     async fn register_global_dedup_query(&mut self, _h: MerkleHash) -> Result<(), String> {
         self.outstanding += 1;
-        self.store.lock().unwrap().queries += 1;
-        Ok(())
+        let mut s = self.store.lock().unwrap();
+        s.queries += 1;
+        s.inject(1)
     }
     async fn complete_global_dedup_queries(&mut self) -> Result<bool, String> {
+        self.store.lock().unwrap().inject(2)?;
         if !self.restart || self.outstanding == 0 {
             self.outstanding = 0;
             return Ok(false);
@@ -136,6 +151,7 @@ impl DeduplicationDataInterface for Mock {
     }
     async fn register_new_xorb(&mut self, x: RawXorbData) -> Result<(), String> {
         let mut s = self.store.lock().unwrap();
+        s.inject(3)?;
         check_xorb(&x, &mut s, true);
         let list: Vec<_> = x.cas_info.chunks.iter().map(|c| (c.chunk_hash, c.unpacked_segment_bytes as usize)).collect();
         s.registered.push(x.hash());
@@ -164,6 +180,10 @@ fn check_xorb(x: &RawXorbData, s: &mut Store, must_be_nonempty: bool) {
     let m = &x.cas_info.metadata;
     if m.num_entries as usize != n || m.num_bytes_in_cas as usize != bytes || x.data.len() != n || x.num_bytes() != bytes {
         s.limit_violation = Some(format!("a xorb with {n} chunk entries / {} data pieces / {bytes} bytes has a header saying {} entries, {} bytes", x.data.len(), m.num_entries, m.num_bytes_in_cas));
+        return;
+    }
+    if x.to_vec() != x.data.iter().flat_map(|d| d.iter().copied()).collect::<Vec<u8>>() {
+        s.limit_violation = Some(format!("xorb of {n} chunks: to_vec() is not the concatenation of its data pieces"));
         return;
     }
     let mut pos = 0usize;
@@ -212,10 +232,11 @@ struct Scenario {
     salt: [u8; 32],
     ext: bool,
     merge: Merge,
+    fail: Option<(u8, usize)>,
 }
 impl Scenario {
     fn simple(name: &str, file: Vec<Chunk>, remote: Vec<Vec<Chunk>>) -> Self {
-        Scenario { name: name.into(), files: vec![file], remote, late: vec![], blocks: vec![usize::MAX], caps: vec![], prefer_last: false, restart: false, salt: [7u8; 32], ext: false, merge: Merge::Separate }
+        Scenario { name: name.into(), files: vec![file], remote, late: vec![], blocks: vec![usize::MAX], caps: vec![], prefer_last: false, restart: false, salt: [7u8; 32], ext: false, merge: Merge::Separate, fail: None }
     }
     fn describe(&self) -> String {
         format!(
@@ -238,6 +259,7 @@ struct Coverage {
     merges: usize,
     global_hits: usize,
     withheld: usize,
+    failures: usize,
 }
 
 fn run(sc: &Scenario, cov: &mut Coverage) -> Option<String> {
@@ -247,6 +269,7 @@ fn run(sc: &Scenario, cov: &mut Coverage) -> Option<String> {
         let mut s = store.lock().unwrap();
         s.caps = sc.caps.clone();
         s.prefer_last = sc.prefer_last;
+        s.fail = sc.fail;
         for c in sc.files.iter().flatten().chain(sc.remote.iter().flatten()).chain(sc.late.iter().flatten()) {
             s.data.insert(c.hash, c.data.clone());
         }
@@ -342,7 +365,16 @@ fn run(sc: &Scenario, cov: &mut Coverage) -> Option<String> {
             k += 1;
             match catch_unwind(AssertUnwindSafe(|| rt.block_on(d.process_chunks(&file[pos..pos + n])))) {
                 Err(e) => return Some(format!("{name}: process_chunks panicked on file {id}, chunks [{pos}, {}): {}", pos + n, panic_msg(e))),
-                Ok(Err(e)) => return Some(format!("{name}: process_chunks failed on file {id}, chunks [{pos}, {}): {e}", pos + n)),
+                Ok(Err(e)) => {
+                    if store.lock().unwrap().fired && e.starts_with("injected") {
+                        cov.failures += 1;
+                        return None; // the injected store failure came back to the caller: nothing more to check
+                    }
+                    return Some(format!("{name}: process_chunks failed on file {id}, chunks [{pos}, {}): {e}", pos + n));
+                },
+                Ok(Ok(_)) if store.lock().unwrap().fired => {
+                    return Some(format!("{name}: the store failed ({:?} = (0 dedup query / 1 register global query / 2 complete global queries / 3 register xorb, call number)) while process_chunks handled chunks [{pos}, {}) of file {id}, but process_chunks returned Ok", sc.fail, pos + n));
+                },
                 Ok(Ok(m)) => {
                     let bytes: usize = file[pos..pos + n].iter().map(|c| c.data.len()).sum();
                     if m.total_chunks != n || m.total_bytes != bytes {
@@ -741,6 +773,30 @@ fn child(idx: usize) -> i32 {
             }
         }
     }
+    // 8d. store failures must come back to the caller (a swallowed failure of register_new_xorb loses the xorb)
+    {
+        let known = g.fresh(4, 70);
+        let mut f = vec![g.eligible(50)];
+        f.extend(g.fresh(3, 51));
+        f.extend(known[1..3].iter().cloned());
+        f.push(g.eligible(52));
+        f.extend(g.fresh(if default_config { 20 } else { 2 * maxc + 3 }, 53));
+        if default_config {
+            f.extend(g.fresh(maxc, 16));
+        }
+        for fail in [(0u8, 0usize), (0, 3), (0, 9), (1, 0), (1, 1), (2, 0), (2, 1), (3, 0)] {
+            for blocks in [vec![usize::MAX], vec![3usize], vec![1]] {
+                let mut sc = base.clone();
+                sc.name = "store failure: [hash-eligible chunk][3 new][2 stored][hash-eligible chunk][new chunks up to a xorb cut]".into();
+                sc.files = vec![f.clone()];
+                sc.remote = vec![known.clone()];
+                sc.restart = true;
+                sc.blocks = blocks;
+                sc.fail = Some(fail);
+                directed.push(sc);
+            }
+        }
+    }
     for sc in &directed {
         if let Some(w) = run(sc, &mut cov) {
             println!("WITNESS [MAX_XORB_CHUNKS={maxc}, MAX_XORB_BYTES={maxb}] {w}");
@@ -853,10 +909,10 @@ fn child(idx: usize) -> i32 {
         }
     }
     if std::env::var("VERIF_STATS").is_ok() {
-        println!("STATS config {:?}: {} scenarios + {} directed + {n_random} random; {} global dedup queries, {} restarts, {} chunks deduplicated on the second pass, {} withheld by defrag prevention, {} merges", CONFIGS[idx], 3 * cases.len(), directed.len(), cov.queries, cov.restarts, cov.global_hits, cov.withheld, cov.merges);
+        println!("STATS config {:?}: {} scenarios + {} directed + {n_random} random; {} global dedup queries, {} restarts, {} chunks deduplicated on the second pass, {} withheld by defrag prevention, {} merges, {} injected failures delivered", CONFIGS[idx], 3 * cases.len(), directed.len(), cov.queries, cov.restarts, cov.global_hits, cov.withheld, cov.merges, cov.failures);
     }
-    if cov.restarts == 0 || cov.queries == 0 || cov.merges == 0 {
-        println!("infrastructure: the scenarios never reached the restart path / merge_in ({} global dedup queries, {} restarts, {} merges)", cov.queries, cov.restarts, cov.merges);
+    if cov.restarts == 0 || cov.queries == 0 || cov.merges == 0 || cov.failures < 12 {
+        println!("infrastructure: the scenarios never reached the restart path / merge_in ({} global dedup queries, {} restarts, {} merges, {} injected failures delivered)", cov.queries, cov.restarts, cov.merges, cov.failures);
         return 2;
     }
 
